@@ -307,18 +307,21 @@ def _split_units(units, out):
     return cur
 
 
-def run_real(exe, units, timeout=10, batch=40, batch_timeout=40):
+def run_real(exe, units, timeout=10, batch=40, batch_timeout=40, solo=None):
     """Runs the units on the real library, `batch` per process; a batch that dies or hangs is re-run unit by unit so
-    that exactly the offending configuration is isolated (u.rc != 0)."""
-    batches = [units[i:i + batch] for i in range(0, len(units), batch)]
+    that exactly the offending configuration is isolated (u.rc != 0).  Units for which solo(u) holds (configurations
+    expected to hang on the pinned tree) run alone from the start."""
+    alone = [u for u in units if solo and solo(u)]
+    rest = [u for u in units if not (solo and solo(u))]
+    batches = [[u] for u in alone] + [rest[i:i + batch] for i in range(0, len(rest), batch)]
 
     def work(b):
         lines = [l for u in b for l in u.ops]
-        rc, out, err = _run_proc(exe, lines, batch_timeout)
-        if rc == 0:
+        rc, out, err = _run_proc(exe, lines, batch_timeout if len(b) > 1 else timeout)
+        if rc == 0 or len(b) == 1:
             _split_units(b, out)
             for u in b:
-                u.rc, u.complete = 0, True
+                u.rc, u.err, u.complete = rc, err, rc == 0
             return
         for u in b:
             u.model_in, u.real = [], []
@@ -396,11 +399,16 @@ def trace_cfg(cfg, accepted):
 
 
 def plan_load(plan):
-    """max over stages of input_size * out_in_ratio: the number of frames one stage invocation reserves in the next FIFO."""
-    m = 0.0
-    for s in plan:
+    """(frames, chain): frames = max over stages of input_size * out_in_ratio, the number of frames one stage invocation
+    reserves in the next FIFO; chain = the largest int product the stage functions form from it: the reservation itself,
+    and L * num_in of a following dft stage (num_in = whatever the previous stage has delivered)."""
+    m, c = 0.0, 0.0
+    for i, s in enumerate(plan):
         try:
-            m = max(m, int(s.get("isz", 0)) * b2d(int(s.get("oir", 0))))
+            f = int(s.get("isz", 0)) * b2d(int(s.get("oir", 0)))
         except (ValueError, OverflowError):
-            pass
-    return m
+            continue
+        m = max(m, f)
+        nxt = plan[i + 1] if i + 1 < len(plan) else None
+        c = max(c, f * (int(nxt.get("L", 1) or 1) if nxt is not None and nxt.get("kind") == "dft" else 1))
+    return m, c
